@@ -512,6 +512,15 @@ class Run:
         elif j == "fromjson":
             uid = self.announced[spec["n"]]
             ev = Event.from_json(json.dumps({"event_type": "service_finished", "data": {"service_uuid": uid}}))
+        elif j == "pairs":
+            # no dict but a sequence of (key, value) pairs naming an announced (mostly outstanding) service
+            uid = self.announced[spec["n"]]
+            ev = Event("service_finished", [("service_uuid", uid)] if spec.get("form") != "items" else {"service_uuid": uid}.items())
+        elif j == "pairsjson":
+            uid = self.announced[spec["n"]]
+            ev = Event.from_json(json.dumps({"event_type": "service_finished", "data": [["service_uuid", uid]]}))
+            if ev is None:
+                ev = Event("service_finished", [["service_uuid", uid]])
         elif j == "default":
             ev = Event()
         else:
